@@ -439,7 +439,10 @@ impl Meta {
         let use_new = rng.coin();
         if use_new || l1 != l2 {
             script.push("NEW".into());
+            // (the front end may still hold a snapshot of the listing, e.g. for its line editor)
+            let held = if rng.coin() { Some(s.rt.get_listing()) } else { None };
             cmd(&mut s, "NEW");
+            drop(held);
             if !s.listing_text().is_empty() {
                 ctx.violation("new-keeps-lines", "reset:new-listing", "NEW left lines in the listing", &script.join("\n"));
                 return;
@@ -976,6 +979,7 @@ impl Meta {
                 5 => format!("DELETE {}-{}", rng.range(0, 300), rng.range(300, 900)),
                 6 => format!("DELETE {}", rng.pick(&nums1)),
                 7 => "RENUM".to_string(),
+                8 if rng.chance(1, 3) => format!("RENUM {},,{}", 65_529 - rng.range(0, 40), rng.range(1, 12)),
                 8 => format!("RENUM {},{},{}", rng.range(1, 500), rng.range(0, 50), rng.range(1, 20)),
                 9 => {
                     non_editing = true;
